@@ -22,7 +22,7 @@ def ctx_bytes(c):
         else: out += list(ch.encode('utf-8'))
     return out
 
-def ctx_name(c): return ''.join(esc(b) if isinstance(b, int) and not (48 <= b < 58 or 65 <= b < 91 or 97 <= b < 123) else ('Q' if b is None else chr(b)) for b in ctx_bytes(c))
+def ctx_name(c): return ''.join(esc(b) if isinstance(b, int) and not (48 <= b < 58 or 65 <= b < 91 or 97 <= b < 123) else ('_q' if b is None else chr(b)) for b in ctx_bytes(c))
 
 # (Type, skip bytes, full-symbolic lengths, starts for full-symbolic, contexts, starts for contexts)
 DEFS = [
